@@ -342,6 +342,61 @@ theorem v4_mapped_same (x n y : Nat) (hn : n ≤ 32) :
   · have : k + y / 2 ^ (32 - n) ≠ k + x / 2 ^ (32 - n) := by omega
     rw [beq_eq_false_iff_ne.mpr h, beq_eq_false_iff_ne.mpr this]
 
+/-! ### Text loading: single addresses and the IPv4-mapped forms on the rule side
+
+A line without `/` is stored with the full length of its address *form*
+(`hostBits`: 32 for `a.b.c.d`, 128 for every 16-byte form, `::ffff:a.b.c.d`
+included) and `Append` adds 96 only to the 4-byte form. -/
+
+/-- **A single-address line covers exactly that address**, whatever form it was
+written in (`a.b.c.d`, `::ffff:a.b.c.d`, plain IPv6). -/
+theorem host_line_single (a : PAddr) (y : Nat) :
+    (append a (hostBits a).toNat).covers y = true ↔ y = a.to6 := by
+  obtain ⟨is6, x⟩ := a
+  cases is6
+  · show (appendV4 x 32).covers y = true ↔ y = v4mapped x
+    unfold appendV4
+    rw [masked_covers]
+    simp [Prefix.covers, Prefix.size]
+  · show (appendV6 x 128).covers y = true ↔ y = x
+    unfold appendV6
+    rw [masked_covers]
+    simp [Prefix.covers, Prefix.size]
+
+/-- The single address `a.b.c.d` and the single address `::ffff:a.b.c.d` are stored as the same prefix. -/
+theorem host_forms_agree (x : Nat) :
+    append (false, x) (hostBits (false, x)).toNat = append (true, v4mapped x) (hostBits (true, v4mapped x)).toNat := rfl
+
+/-- `a.b.c.d/n` and `::ffff:a.b.c.d/(n+96)` are stored as the same prefix. -/
+theorem cidr_forms_agree (x n : Nat) : append (false, x) n = append (true, v4mapped x) (n + 96) := rfl
+
+/-- What a loaded line stores is a masked prefix of at most 128 bits (lengths as `netip` accepts them:
+`≤ 32` for the 4-byte form, `≤ 128` for the 16-byte forms). -/
+theorem storeLine_stored (r : PAddr × Int) (h6 : r.2.toNat ≤ 128) (h4 : r.1.1 = false → r.2.toNat ≤ 32) :
+    Stored (storeLine r) := by
+  obtain ⟨⟨is6, x⟩, n⟩ := r
+  cases is6
+  · exact masked_stored _ (by have := h4 rfl; simp only at this ⊢; omega)
+  · exact masked_stored _ h6
+
+/-- **C13 for a loaded rule list**: the lines `rs` (as `loadLine` yields them, in any
+order, duplicates / nesting / mixed forms allowed), stored by `Append`, sorted
+by base in any way and merged: the set contains `a` iff some line's prefix covers `a`. -/
+theorem loaded_set_correct (rs : List (PAddr × Int))
+    (hb : ∀ r ∈ rs, r.2.toNat ≤ 128 ∧ (r.1.1 = false → r.2.toNat ≤ 32))
+    (l : List Iv) (hperm : ∀ x, x ∈ l ↔ x ∈ (rs.map storeLine).map Iv.ofPrefix) (hs : SortedLo l) (a : Nat) :
+    contains l a = true ↔ ∃ r ∈ rs, (storeLine r).covers a = true := by
+  rw [contains_correct (rs.map storeLine) (by
+    intro p hp
+    obtain ⟨r, hr, rfl⟩ := List.mem_map.mp hp
+    exact storeLine_stored r (hb r hr).1 (hb r hr).2) l hperm hs a]
+  constructor
+  · rintro ⟨p, hp, hc⟩
+    obtain ⟨r, hr, rfl⟩ := List.mem_map.mp hp
+    exact ⟨r, hr, hc⟩
+  · rintro ⟨r, hr, hc⟩
+    exact ⟨storeLine r, List.mem_map.mpr ⟨r, hr, rfl⟩, hc⟩
+
 /-! ### Guards: the facts regenerated from `pkg/matcher/netlist/list.go` are the
 ones the model was written from (operators, statement shapes, constants). -/
 theorem facts_guard :
@@ -357,5 +412,9 @@ def ex : List Iv := [⟨10, 20⟩, ⟨10, 12⟩, ⟨12, 14⟩, ⟨20, 30⟩]
 example : contains ex 19 = true ∧ contains ex 13 = true ∧ contains ex 30 = false ∧ contains ex 9 = false := by decide
 example : (appendV4 (10 * 2 ^ 24 + 5) 8).base = v4mapped (10 * 2 ^ 24) := by decide
 example : (appendV4 (10 * 2 ^ 24 + 5) 8).covers (v4mapped (10 * 2 ^ 24 + 77)) = true := by decide
+/-- Were a single `::ffff:a.b.c.d` line given the IPv4 length 32 (on its 16-byte form `Append` adds nothing),
+it would cover `::1` and every IPv4 address: `host_line_single` excludes that. -/
+example : (append (true, v4mapped 7) 32).covers 1 = true ∧ (append (true, v4mapped 7) 32).covers (v4mapped 9) = true := by decide
+example : (append (true, v4mapped 7) (hostBits (true, v4mapped 7)).toNat).covers (v4mapped 9) = false := by decide
 
 end Props.C13
